@@ -223,8 +223,18 @@ class FieldError(Exception):
         self.message, self.extensions = message, extensions
 
 
+VOID = "__VOID__"
+
+
+def serialize_any(v):
+    """serialiser installed on the harness schema's custom scalar: one internal value has no external representation"""
+    return None if v == VOID else v
+
+
 def serialize(t, v):
     n = t.name
+    if n == "Any":
+        return serialize_any(v)
     if n == "Int":
         if isinstance(v, bool) or not isinstance(v, int) or not (RC.MIN_INT <= v <= RC.MAX_INT):
             if isinstance(v, float) and v == int(v) and RC.MIN_INT <= v <= RC.MAX_INT:
